@@ -62,6 +62,9 @@ for _z in ZONES:
             _AW[(_z, _w, 3)] = _AW[(_z, _w, 1)]
         for _s in (0, 1, 2):
             _AW2[(_z, _w, _s)] = _AW[(_z, _w, _s)] + timedelta(days=400)
+        # an earlier instant in the same zone (start of a period that ENDS at the wall time under test)
+        _AW2[(_z, _w, 10)] = (_w - timedelta(days=400)).replace(tzinfo=_ZI[_z])
+        _AW2[(_z, _w, 11)] = _PZ[_z].localize(_w - timedelta(days=400))
 _UTCV = {}
 for _w in WALLS:
     _UTCV[_w] = [_w.replace(tzinfo=UTC), pytz.utc.localize(_w), _w.replace(tzinfo=dateutil.tz.UTC)]
@@ -85,11 +88,12 @@ def _is_gap(z, w):
 
 def h_zoned(z: int, w: int, shape: int, source: int, pytz_provider: bool) -> bool:
     """
-    A zoned date-time as a single value (DTSTART), in a date list (RDATE) or as a period start
-    (FREEBUSY): written with the same wall-clock fields and TZID=<zone key>; parsed back with the
-    same wall time, the same zone id and the UTC offset the active provider assigns to that wall time.
+    A zoned date-time as a single value (DTSTART), in a date list (RDATE), as a period start
+    (FREEBUSY, duration form) or as the explicit END of a period (shape 3): written with the same
+    wall-clock fields and TZID=<zone key>; parsed back with the same wall time, the same zone id and
+    the UTC offset the active provider assigns to that wall time.
 
-    pre: 0 <= z < len(ZONES) and 0 <= w < len(WALLS) and 0 <= shape <= 2 and 0 <= source <= 1
+    pre: 0 <= z < len(ZONES) and 0 <= w < len(WALLS) and 0 <= shape <= 3 and 0 <= source <= 1
     pre: pinned("z", z) and pinned("pytz_provider", pytz_provider)
     pre: not (pytz_provider and _is_gap(z, w))
     post: _
@@ -103,18 +107,22 @@ def h_zoned(z: int, w: int, shape: int, source: int, pytz_provider: bool) -> boo
         src = _c(source, 0, 1)
         dt = _aware(zone, wall, src)
         ev = Event()
-        sh = _c(shape, 0, 2)
-        name = ["DTSTART", "RDATE", "FREEBUSY"][sh]
+        sh = _c(shape, 0, 3)
+        name = ["DTSTART", "RDATE", "FREEBUSY", "FREEBUSY"][sh]
         if sh == 0:
             ev.add("dtstart", dt)
         elif sh == 1:
             ev.add("rdate", [dt, _AW2[(zone, wall, src)]])
-        else:
+        elif sh == 2:
             ev.add("freebusy", vPeriod((dt, _HOUR)))
+        else:
+            ev.add("freebusy", vPeriod((_AW2[(zone, wall, 10 + src)], dt)))
         text = ev.to_ical().decode("utf-8").replace("\r\n ", "")
         line = [ln for ln in text.split("\r\n") if ln.startswith(name)][0]
         head, _, value = line.partition(":")
         fields = wall.strftime("%Y%m%dT%H%M%S")
+        if sh == 3:
+            value = value.partition("/")[2]      # the END of the period carries the wall time under test
         if ("TZID=" + zone) not in head.split(";") or not value.startswith(fields) or value[15:16] == "Z":
             return False
         back = Component.from_ical(ev.to_ical())
@@ -123,8 +131,10 @@ def h_zoned(z: int, w: int, shape: int, source: int, pytz_provider: bool) -> boo
             got = prop.dt
         elif sh == 1:
             got = prop.dts[0].dt
-        else:
+        elif sh == 2:
             got = prop.start
+        else:
+            got = prop.end
         if prop.params.get("TZID") != zone:
             return False
         if got.replace(tzinfo=None) != wall or tzid_from_dt(got) != zone:
